@@ -29,6 +29,11 @@ def circuits():
     c = lw.Circuit(3)
     c.bs(0, 2, convention="H"); c.bs(1, 2); c.loss(2, 0.5); c.herald(1, 1, 2)
     out["herald1_b"] = (c, [2, 0])
+    # three photons, no heralds: threshold detection merges several bunched patterns into one outcome (Hadamard matrix: rational probabilities)
+    h4 = np.array([[1, 1, 1, 1], [1, -1, 1, -1], [1, 1, -1, -1], [1, -1, -1, 1]], dtype=complex) / 2
+    c = lw.Circuit(4)
+    c.add(lw.Unitary(h4), 0); c.ps(0, math.pi / 2); c.bs(0, 1); c.bs(0, 1)
+    out["plain4_3ph"] = (c, [1, 1, 1, 0])
     return out
 
 
@@ -248,6 +253,10 @@ QUICK = [
     ("c6", "herald1_b", (F(1, 2), F(1, 4), False), "none", 0),
     ("c7", "herald1_lossy", (F(1, 2), F(0), True), "none", 2),      # a photon-carrying herald together with min_detection and loss
     ("c8", "herald1_b", (F(3, 4), F(0), True), "none", 1),
+    # ideal threshold detectors (the documented scope of sample_N_outputs): several photon patterns collapse onto one outcome
+    ("c9", "plain4_3ph", (F(1), F(0), False), "none", 0),
+    ("c10", "herald1_lossy", (F(1), F(0), False), "none", 0),
+    ("c11", "herald1_b", (F(1), F(0), False), "le1_on_01", 1),
 ]
 
 
